@@ -76,6 +76,13 @@ def units(tier):
                     out.append((("union", other, w), tier))
                     out.append((("union", w, other), tier))
                     out.append((("union", other, w, ("list", L("int"))), tier))
+    # named tuples in their DICT form (namedtuple_as_dict): members that are named tuples with defaults next to dict-shaped members
+    NTD = ("nt", ((L("int"), True), (L("str"), True)))          # every field has a default
+    NTR = ("nt", ((L("str"), False), (L("int"), True)))
+    dictish = [NTD, NTR, ("td", ((L("int"), "req"),)), ("dict", L("str"), L("int")), DC1]
+    for a, b in itertools.permutations(dictish, 2):
+        out.append((("union", a, b), tier, "nt_as_dict"))
+        out.append((("list", ("opt", ("union", a, b))), tier, "nt_as_dict"))
     for lit in LITERALS:
         out.append((lit, tier))
         out.append((("list", lit), tier))
@@ -122,12 +129,17 @@ def _duck_pack(m, v, ctx, o):
 
 
 def run_case(unit, only=None):
-    d, tier = unit
+    d, tier = unit[:2]
+    as_dict = len(unit) > 2
     res = core.UnitResult()
     with space.Ctx() as ctx:
         h = space.hint(d, ctx)
         vals = space.values(d, ctx)
-        o = ref.opts()
+        o = ref.opts(namedtuple_as_dict=as_dict)
+        dd = None
+        if as_dict:
+            from mashumaro.dialect import Dialect
+            dd = type("AsDict", (Dialect,), {"namedtuple_as_dict": True})
         encs = []
         for v in vals:
             try:
@@ -136,11 +148,11 @@ def run_case(unit, only=None):
                 encs.append(None)
         eps = {}
         for ep in ("codec", "mixin"):
-            r = e1.outcome(e1.EntryPoints, ep, h, ctx)
+            r = e1.outcome(e1.EntryPoints, ep, h, ctx, default_dialect=dd, holder_config={"namedtuple_as_dict": "True"} if as_dict else None)
             res.transitions += 1
             if r[0] == "exc":
                 res.violation(f"build-failed|{space.show(d)}|{ep}", "build-failed", e1.exc_class(r[1]),
-                              dict(desc=d, tier=tier, entry=ep, label=None), repr(r[1]))
+                              dict(desc=d, tier=tier, entry=ep, label=None, cfg="nt_as_dict" if as_dict else None), repr(r[1]))
                 continue
             eps[ep] = r[1]
         # ---- serialize: every member value takes its own member's encoding
@@ -154,10 +166,10 @@ def run_case(unit, only=None):
                 exp = encs[idx]
                 if r[0] == "exc":
                     res.violation(f"union-encode-raised|{space.show(d)}|{ep}", "union-encode-raised", e1.exc_class(r[1]),
-                                  dict(desc=d, tier=tier, entry=ep, label=("enc", idx)), f"value={v!r:.200} {r[1]!r:.200}")
+                                  dict(desc=d, tier=tier, entry=ep, label=("enc", idx), cfg="nt_as_dict" if as_dict else None), f"value={v!r:.200} {r[1]!r:.200}")
                 elif not ref.same(r[1], exp):
                     res.violation(f"union-encode-neq|{space.show(d)}|{ep}", "union-encode-neq", "neq",
-                                  dict(desc=d, tier=tier, entry=ep, label=("enc", idx),
+                                  dict(desc=d, tier=tier, entry=ep, label=("enc", idx), cfg="nt_as_dict" if as_dict else None,
                                        facts=dict(earlier_fixed_tuple_reproduces=_earlier_tuple(d, v, r[1], ctx, o))),
                                   f"value={v!r:.200} expected={exp!r:.200} got={r[1]!r:.200}")
                 else:
@@ -179,10 +191,10 @@ def run_case(unit, only=None):
                 verdict, clause, out, detail, exp, r = c03.judge(d, copy.deepcopy(x), ctx, o, E.decode)
                 res.outcomes[f"{exp[0]}/{r[0]}"] += 1
                 if verdict == "viol":
-                    facts = dict(none_fallback_reproduces=c03._alt_reproduces(d, x, ctx, r, none_in_fallback=True),
+                    facts = dict(none_fallback_reproduces=c03._alt_reproduces(d, x, ctx, r, none_in_fallback=True, namedtuple_as_dict=as_dict),
                                  union3_with_none=ref.has_union3_with_none(d))
                     res.violation(f"union-{clause}|{space.show(d)}|{ep}|{out}", "union-" + clause, out,
-                                  dict(desc=d, tier=tier, entry=ep, label=label, facts=facts), detail)
+                                  dict(desc=d, tier=tier, entry=ep, label=label, facts=facts, cfg="nt_as_dict" if as_dict else None), detail)
                 else:
                     res.nontrivial += 1
                     if label[0] == "whole" and exp[0] == "value" and len(res.samples) < 1:
@@ -196,6 +208,6 @@ run_unit = run_case
 
 def replay(case):
     label = case["label"]
-    res = run_case((core.detuple(case["desc"]), case["tier"]),
+    res = run_case((core.detuple(case["desc"]), case["tier"]) + (("nt_as_dict",) if case.get("cfg") else ()),
                    only=(case["entry"], core.detuple(label)) if label is not None else None)
     return res.violations
